@@ -1086,8 +1086,11 @@ impl Spec {
                 .map(|r| slots_for(r.blob.len()))
                 .sum();
             if avail + held + su.forfeited != su.granted {
+                // a tracker of this user went away in this step: the balance being wrong is then also a
+                // wrong (or unpersisted) refund / forfeit of a resolved tracker (C04)
+                let tracker_gone = obs.db_before.trackers.keys().any(|k| !db.trackers.contains_key(k) && obs.db_before.appointments.get(k).map_or(false, |a| a.user == id));
                 out.push(Viol {
-                    props: &["C07"],
+                    props: if tracker_gone { &["C07", "C04"] } else { &["C07"] },
                     sig: format!(
                         "slots:not-conserved:after:{}:delta={}",
                         ev_kind(&obs.ev),
@@ -1300,6 +1303,7 @@ pub fn ev_kind(ev: &Ev) -> &'static str {
         Ev::Poll => "poll",
         Ev::MineP(_) => "mine+poll",
         Ev::External(_) => "external",
+        Ev::Evict(_) => "evict",
         Ev::Reorg { .. } => "reorg",
         Ev::ReorgP { .. } => "reorg+poll",
         Ev::Advance(_) => "advance",
